@@ -3,6 +3,7 @@ package main
 import (
 	"fmt"
 	"os"
+	"time"
 	"go/token"
 	"go/types"
 	"math/big"
@@ -54,6 +55,10 @@ type Exec struct {
 	shape    string
 	ghostOld *Snapshot
 	cexHook  func(e *Exec, st *State, o *Oblig) *Cex
+	recvIface types.Type
+	started    time.Time
+	wallBudget time.Duration
+	budgetHit  bool
 }
 
 const maxPaths = 6000
@@ -340,6 +345,13 @@ func (e *Exec) run(st *State) {
 	for {
 		if e.paths > maxPaths {
 			e.fail(shortName(e.top)+"/BUDGET:paths", "BUDGET", "path budget exceeded")
+			return
+		}
+		if time.Since(e.started) > e.wallBudget {
+			if !e.budgetHit {
+				e.budgetHit = true
+				e.fail(shortName(e.top)+"/BUDGET:time", "BUDGET", "wall-clock budget for one function exceeded")
+			}
 			return
 		}
 		if len(st.frames) == 0 {
